@@ -17,7 +17,9 @@
             | props { (string S)* } | pprops { (p<id> S)* } | pnames S | prefix [ S* ]
             | contains S | addl S | items S
    Table:   p<id>:<string>:<0|1> ...
-   Output:  U                      the model says the import fails (tag F only)
+   Tags:    F forward case, O the same schema written with permuted keys, R schema generated back,
+            T test-suite case
+   Output:  U                      the model says the import fails (tags F and O only)
             C <valid bits> <encode bits>   as S, and the model says the generated file is an error
                                    value as a whole (compile error, every instance rejected)
             S <valid bits> <encode bits> <dev>   (dev: "-" or the deviation classes of Schema/Encode.v used
@@ -145,13 +147,14 @@ let handle line =
         match words part with
         | [] -> None
         | ws -> Some (p_json { toks = ws })) (String.split_on_char ';' inf) in
-    if tag = "F" && c13_unsupported tbl sch then "U"
+    let fwd = (tag = "F" || tag = "O") in
+    if fwd && c13_unsupported tbl sch then "U"
     else begin
       let b x = if x then "1" else "0" in
       let v = String.concat "" (List.map (fun j -> b (c13_valid tbl sch j)) insts) in
       let r = c13_enc tbl sch in
       let e = String.concat "" (List.map (fun j -> b (c13_enc_ev r j)) insts) in
-      (if tag = "F" && c13_poisoned tbl sch then "C " else "S ") ^ v ^ " " ^ e ^ " " ^ dev_string (c13_dev r)
+      (if fwd && c13_poisoned tbl sch then "C " else "S ") ^ v ^ " " ^ e ^ " " ^ dev_string (c13_dev r)
     end
   | _ -> "BADCASE"
 
